@@ -13,6 +13,7 @@ import (
 	"reflect"
 	"strings"
 	"testing"
+	"unsafe"
 
 	mocker "github.com/tencent/goom"
 	"github.com/tencent/goom/arg"
@@ -44,6 +45,41 @@ type hidden struct {
 //go:noinline
 func hostile(n *vkit.Node, e error, i interface{}, s fmt.Stringer, h hidden, big []int, pp **int) (error, interface{}, *vkit.Node) {
 	return errors.New("orig"), 1, nil
+}
+
+type wide struct {
+	X [33]int8
+	Y [3][12]uint16
+}
+
+//go:noinline
+func hostile2(a [64]byte, b [40]int, m map[string]interface{}, c chan int, f func(), u unsafe.Pointer, z complex128, w wide, e [0]int) ([64]byte, [40]int, wide) {
+	return [64]byte{1}, [40]int{2}, wide{}
+}
+
+func hostile2Args(code int64) []reflect.Value {
+	var a [64]byte
+	var b [40]int
+	for i := range a {
+		a[i] = byte(int64(i) + code)
+	}
+	for i := range b {
+		b[i] = int(code) * i
+	}
+	ms := []map[string]interface{}{nil, {}, {"k": nil, "r": &a}}
+	cs := []chan int{nil, make(chan int), make(chan int, 3)}
+	fs := []func(){nil, func() {}}
+	x := 7
+	us := []unsafe.Pointer{nil, unsafe.Pointer(&x)}
+	c := int(code)
+	if c < 0 {
+		c = -c
+	}
+	w := wide{}
+	w.X[32] = int8(c)
+	w.Y[2][11] = uint16(c)
+	return []reflect.Value{reflect.ValueOf(a), reflect.ValueOf(b), reflect.ValueOf(ms[c%3]), reflect.ValueOf(cs[c%3]), reflect.ValueOf(fs[c%2]),
+		reflect.ValueOf(us[c%2]), reflect.ValueOf(complex(float64(c), -1.5)), reflect.ValueOf(w), reflect.ValueOf([0]int{})}
 }
 
 //go:noinline
@@ -272,6 +308,24 @@ func play(sc *scen) (tr []string) {
 		call("hostile/ret", func() []reflect.Value { return reflect.ValueOf(hostile).Call(hostileArgs(code(sc, 4))) })
 		b.Func(hostile).When(arg.Any(), nil, arg.Any(), arg.Any(), arg.Any(), arg.Any(), arg.Any()).Return(nil, BadStringer{4}, nil)
 		call("hostile/when", func() []reflect.Value { return reflect.ValueOf(hostile).Call(hostileArgs(code(sc, 5))) })
+	case "hostile2":
+		var saw string
+		b.Func(hostile2).Apply(func(a [64]byte, bb [40]int, m map[string]interface{}, c chan int, f func(), u unsafe.Pointer, z complex128, w wide, e [0]int) ([64]byte, [40]int, wide) {
+			saw = fmt.Sprintf("a63=%d b39=%d m=%d c-nil=%v f-nil=%v u-nil=%v z=%v w=%d/%d", a[63], bb[39], len(m), c == nil, f == nil, u == nil, z, w.X[32], w.Y[2][11])
+			a[0]++
+			return a, bb, w
+		})
+		for i := 0; i < 3; i++ {
+			args := hostile2Args(code(sc, i))
+			call("hostile2/cb", func() []reflect.Value { return reflect.ValueOf(hostile2).Call(args) })
+			say("  callback saw %s", saw)
+		}
+		ra := hostile2Args(code(sc, 3))
+		b.Func(hostile2).Return(ra[0].Interface(), ra[1].Interface(), ra[7].Interface())
+		call("hostile2/ret", func() []reflect.Value { return reflect.ValueOf(hostile2).Call(hostile2Args(code(sc, 4))) })
+		b.Func(hostile2).When(arg.Any(), ra[1].Interface(), arg.Any(), arg.Any(), arg.Any(), arg.Any(), arg.Any(), arg.Any(), arg.Any()).Return([64]byte{9}, [40]int{9}, wide{})
+		call("hostile2/when-hit", func() []reflect.Value { return reflect.ValueOf(hostile2).Call(hostile2Args(code(sc, 3))) })
+		call("hostile2/when-miss", func() []reflect.Value { return reflect.ValueOf(hostile2).Call(hostile2Args(code(sc, 3)+1)) })
 	}
 	return tr
 }
@@ -398,7 +452,7 @@ func TestVerifC19(t *testing.T) {
 	quiet()
 	p := &vkit.Prop{ID: "C19", Unit: "scenarios", Journal: true, New: func() interface{} { return &scen{} },
 		Gen: func(rt *rapid.T) interface{} {
-			sc := &scen{Kind: rapid.SampledFrom([]string{"fn", "fn", "variadic", "method", "iface", "panic", "hostile", "hostile"}).Draw(rt, "kind"),
+			sc := &scen{Kind: rapid.SampledFrom([]string{"fn", "fn", "variadic", "method", "iface", "panic", "hostile", "hostile", "hostile2", "hostile2"}).Draw(rt, "kind"),
 				K: rapid.IntRange(0, 119).Draw(rt, "k")}
 			n := rapid.IntRange(1, 6).Draw(rt, "ncodes")
 			for i := 0; i < n; i++ {
@@ -407,7 +461,7 @@ func TestVerifC19(t *testing.T) {
 			return sc
 		},
 		Run: runScen}
-	s := p.Main(t, vkit.Scale(250, 4000))
+	s := p.Main(t, vkit.Scale(400, 4000))
 	if !vkit.Replaying() {
 		s.Done()
 	}
